@@ -24,6 +24,18 @@ checks = {
    text="DependencySort is executed on every DAG with <=4 nodes and 0/1/2 parallel edges per ordered pair (thorough: 5 nodes, 0/1 edges) under every combination of iteration orders of its map ranges (owned through a generated overlay), and Store.UnminedTxs in every reachable state of the tx-graph universes under every map order; result must be a permutation with parents first.",
    note="Map iteration order is the only nondeterminism and is enumerated exhaustively through the ovgen overlay generated from the current tree; graphs beyond 5 nodes not covered.",
    technique="exhaustive enumeration of inputs x all map-iteration orders (controlled nondeterminism) on the real code"),
+ "C03": dict(engine="seqx", level=MC, ref="4/C03",
+   text="Every operation sequence up to depth 3 (thorough 4 on a reduced alphabet) over next/extend/lookup/derive/mark-used/lock/unlock/passphrase change/new account/imported xpub account/imports/restart is executed on a real manager, per seed (incl. one whose coin-type key has a leading zero byte), per key scope (4 default + custom) and from several base states; after the last operation every address issued so far, however obtained, is compared with an independent BIP32 (legacy rule) derivation, and the private key with its public key.",
+   note="State = operation history (live managers cannot be cloned), so the search is stateless bounded-depth; refbip32 and btcutil address encoders are trusted; depth and alphabet are the bound.",
+   technique="bounded exhaustive enumeration of operation sequences on the implementation (stateless model checking) against an independent reference derivation"),
+ "C17": dict(engine="c17", level=EX, ref="4/C17",
+   text="Every single-bit flip, every truncation and 1-3 byte extensions of ciphertexts for all plaintext lengths 0..48 (thorough 0..160) under 4 keys, wrong keys, nonce reuse, every near-miss passphrase of a passphrase set, every truncation/bit flip of the marshalled parameters; the same table through Manager.Encrypt/Decrypt for the three key types and across restart.",
+   note="Exhaustive over the stated finite grids only; scrypt cost parameters reduced (not observed by the property). Two genuine findings are listed in known_findings.txt.",
+   technique="exhaustive enumeration of a bounded input space on the real code"),
+ "C19": dict(engine="c19", level=EX, ref="4/C19",
+   text="migration.Upgrade is run inside a real walletdb transaction for every non-empty version table over {1..4} (thorough {1..6}), every declaration order, every nil/ok/fail assignment and every stored version, alone and as two services in one call, against a sorted-filter model with full database dump comparison; wallet.Open is run on real wallet files with every combination of overwritten wtxmgr/waddrmgr versions.",
+   note="Exhaustive over the stated finite grids; migrations of the harness manager write marker keys so that rollback is observable.",
+   technique="exhaustive enumeration of a bounded input space on the real code with a reference model"),
 }
 pending_reason = "check not built yet in this session (planned, see DESIGN.md section 4)"
 def sh(c): return subprocess.run(c, shell=True, capture_output=True, text=True).stdout.strip()
@@ -35,6 +47,7 @@ m = {
            "baseline_off_cmd": "/verif/baseline_off.sh", "source_commits": hook_commits, "add_only": True},
  "engines": [
   {"name": "maporder", "path": "ovgen + harness/vorder", "serves_properties": ["C14"], "kind_free_text": "go build -overlay generated from the current tree rewrites map ranges into harness-controlled order; DFS over all order choice vectors"},
+  {"name": "seqx", "path": "harness/amgr", "serves_properties": ["C03","C04","C05","C08","C10"], "kind_free_text": "stateless bounded-depth enumeration of operation sequences on real waddrmgr managers (fresh copy of a template database per execution), 16 workers"},
   {"name": "txgraph", "path": "harness/txgraph", "serves_properties": ["C01","C02","C12","C13","C14","C10"], "kind_free_text": "explicit-state BFS over the real wtxmgr.Store (state = canonical namespace dump) with a reference ledger in lock-step"},
  ],
  "checks": [], "not_applicable": [],
